@@ -963,7 +963,8 @@ class Part(object):
             if e.staff is not None and e.staff > max_staves:
                 max_staves = e.staff
 
-        self._number_of_staves = max_staves
+        # not stored on the part: exports and maps must not change their
+        # argument, and a stored value would go stale when staves are added
         return max_staves
 
     def _remove_point(self, tp):
